@@ -486,6 +486,13 @@ def gen_C08(r):
             ops.append({"op": "gc", "flags": {"verbose": r.random() < 0.3}, "gap": gap, "cwd": ""})
         else:
             ops.append({"op": "clean", "cwd": ""})
+    if r.random() < 0.08:
+        # a cond-out last written by Conductor <= 0.4 (index format 1), possibly on a machine whose clock
+        # was ahead: the upgrade happens inside the first command, which is a run
+        exps_ = [t for t, d in scn["tasks"].items() if d["kind"] == "exp"]
+        if exps_:
+            ops.insert(0, {"op": "legacy_index",
+                           "rows": [[t, scn["epoch"] + r.choice([-5000, -3, 0, 2, 40, 5000])] for t in exps_[:3]]})
     scn["history"] = ops
     return scn
 
@@ -569,7 +576,7 @@ GEN["C06"] = gen_C06
 
 CORRUPTIONS = [None, None, {"kind": "no_index"}, {"kind": "missing_member", "idx": 0}, {"kind": "missing_member", "idx": 1},
                {"kind": "truncate", "frac": 0.1}, {"kind": "truncate", "frac": 0.5}, {"kind": "truncate", "frac": 0.9},
-               {"kind": "garbage"}, {"kind": "index_not_sqlite"}]
+               {"kind": "garbage"}, {"kind": "index_not_sqlite"}, {"kind": "index_empty"}]
 
 
 def gen_C12(r):
@@ -581,17 +588,41 @@ def gen_C12(r):
                        fail_p=r.choice([0.0, 0.0, 0.2]), files=True, out=r.random() < 0.5, cwds=("",))
 
     ops.append(run_op(0.0))
-    if r.random() < 0.5:
+    overlap = r.random() < 0.07
+    if overlap:
+        # two archives, the second a superset of the first
+        ops.append({"op": "archive", "out": "E0", "target": None, "flags": {}, "cwd": ""})
+        op2 = run_op(1.0)
+        op2["flags"]["again"] = True
+        op2["gap"] = max(op2.get("gap", 0.0), 1.0)
+        ops.append(op2)
+    elif r.random() < 0.5:
         ops.append(run_op(0.8))
     tgt = None
-    if r.random() < 0.25:
+    if r.random() < 0.25 and not overlap:
         exps = [t for t, d in scn["tasks"].items() if d["kind"] == "exp"]
         tgt = r.choice(exps) if exps else None
-    ops.append({"op": "archive", "out": "A0", "target": tgt, "flags": {"latest": r.random() < 0.3}, "cwd": ""})
+    ops.append({"op": "archive", "out": "A0", "target": tgt, "flags": {"latest": r.random() < 0.3 and not overlap}, "cwd": ""})
     # prior project state for the restore
     state = r.choice(["clean", "clean", "clean+run", "keep", "clean+plant", "clean+run+plant"])
+    c12x = r.random()
+    if c12x < 0.07:
+        state = "clean+legacy"       # cond-out of an old Conductor: the index is upgraded inside the restore
+    elif c12x < 0.14:
+        state = "keep+rmdir"         # a recorded version lost its directory (rm -rf by hand)
+    if overlap:
+        state = "overlap"
+        # the first archive is restored, one of its versions loses its directory (rm -rf by hand), then the
+        # second archive - which holds that recorded version and newer ones - is restored
+        ops += [{"op": "clean", "cwd": ""}, {"op": "restore", "archive": "E0", "cwd": ""},
+                {"op": "plant", "items": [{"kind": "remove_recorded_dir", "idx": r.randrange(4)}]}]
     if state.startswith("clean"):
         ops.append({"op": "clean", "cwd": ""})
+    if state == "clean+legacy":
+        exps_ = [t for t, d in scn["tasks"].items() if d["kind"] == "exp"]
+        ops.append({"op": "legacy_index", "rows": [[t, scn["epoch"] - 9000 - 11 * j] for j, t in enumerate(exps_[:2])]})
+    if state == "keep+rmdir":
+        ops.append({"op": "plant", "items": [{"kind": "remove_recorded_dir", "idx": r.randrange(4)}]})
     if "run" in state:
         op = run_op(0.0)
         op["gap"] = r.choice([1.0, 50.0, 100000.0])
@@ -618,6 +649,12 @@ def gen_C12(r):
            "cwd": r.choice(["", ""] + list(scn["pkgs"]))}
     if corrupt:
         rop["corrupt"] = corrupt
+    elif r.random() < 0.15:
+        rop["tar_killed"] = True
+    if r.random() < 0.1:
+        # started by a parent that ignores SIGCHLD (inherited across exec): the kernel reaps the tar child
+        # itself and its exit status is not available
+        rop["sig_ign"] = ["CHLD"]
     ops.append(rop)
     step = len(ops) - 1
     if r.random() < 0.3:
@@ -631,6 +668,20 @@ GEN["C12"] = gen_C12
 
 
 def gen_C16(r):
+    if r.random() < 0.3:
+        # several tasks in flight at once: the signal lands while others are being launched / reaped
+        scn = _fanout_scenario(r, stop_early_p=0.2, fail_p=r.choice([0.0, 0.15, 0.3]))
+        scn["knobs"]["mon"] = True
+        scn["knobs"]["p_async"] = r.choice([0.0, 1e-3, 5e-3])
+        op = scn["history"][0]
+        if r.random() < 0.4:
+            op["flags"]["jobs"] = r.choice([2, 3])
+        for t, lst in op["scripts"].items():
+            for sc in lst:
+                if sc["end"] == ["exit", 0] and len(sc["steps"]) < 4:
+                    sc["steps"] = sc["steps"] + [["nop"]] * r.choice([2, 4, 8])
+        scn["enum"] = {"step": 0, "budget": 120 if _tier() == "quick" else 6000}
+        return scn
     scn = _small_project(r, n=(2, 5), kinds={"exp": 6, "cmd": 3, "group": 1, "combine": 1}, p_par=0.7)
     scn["knobs"]["p_async"] = r.choice([0.0, 1e-3, 5e-3, 2e-2])
     ops = []
@@ -663,6 +714,10 @@ def gen_C16(r):
             op["flags"]["this_commit"] = True
     if r.random() < 0.1:
         op["sig_ign"] = ["INT"]
+    elif r.random() < 0.12:
+        # `cond run ... | reader` and the interrupt takes the reader down too: Conductor's own stdout fails
+        # with EPIPE from the moment of the signal (I/O fault on the reporting path)
+        op["stdout_gone_on_signal"] = True
     ops.append(op)
     scn["history"] = ops
     scn["enum"] = {"step": len(ops) - 1, "budget": 120 if _tier() == "quick" else 6000}
@@ -1011,6 +1066,14 @@ def gen_C17(r):
         else:
             op = {"op": "clean", "cwd": cwd}
         ops.append(op)
+    if r.random() < 0.12:
+        # gc started from inside an experiment output directory while several unrecorded ones (failed
+        # executions) exist: one of the directories gc removes may be the working directory itself
+        for _ in range(2):
+            ops.append(_run_op(r, tasks, jobs_choices=(None, 2), again_p=1.0, fail_p=0.7, files=True,
+                               cwds=("",), gap=r.choice([1.0, 2.0])))
+        ops.append({"op": "gc", "flags": {"dry": r.random() < 0.2, "verbose": r.random() < 0.8},
+                    "cwd": r.choice(["@expdir:%d" % r.randrange(8), "@insideexp:%d" % r.randrange(8)])})
     scn["history"] = ops
     return scn
 
